@@ -1015,9 +1015,9 @@ func FromV3RequestBodyFormData(mediaType *openapi3.MediaType) openapi2.Parameter
 			continue
 		}
 		val := schemaRef.Value
-		typ := val.Type
-		if val.Format == "binary" {
-			typ = &openapi3.Types{"file"}
+		typ, format := val.Type, val.Format
+		if format == "binary" {
+			typ, format = &openapi3.Types{"file"}, ""
 		}
 		required := false
 		for _, name := range val.Required {
@@ -1041,6 +1041,7 @@ func FromV3RequestBodyFormData(mediaType *openapi3.MediaType) openapi2.Parameter
 			Name:         propName,
 			Description:  val.Description,
 			Type:         typ,
+			Format:       format,
 			In:           "formData",
 			Extensions:   stripNonExtensions(val.Extensions),
 			Enum:         val.Enum,
@@ -1056,7 +1057,6 @@ func FromV3RequestBodyFormData(mediaType *openapi3.MediaType) openapi2.Parameter
 			Minimum:      val.Min,
 			Pattern:      val.Pattern,
 			// CollectionFormat: val.CollectionFormat,
-			// Format:          val.Format,
 			AllowEmptyValue: val.AllowEmptyValue,
 			Required:        required,
 			UniqueItems:     val.UniqueItems,
